@@ -1,17 +1,45 @@
 import IdenaModel.Model.CeremonyEpoch
 import IdenaModel.Model.Shards
+import IdenaModel.Model.CeremonyCandidates
 import IdenaModel.Drivers.Util
 /-! Driver for channel C01 (replica histories): the ceremony records of a node under blocks, resets and restarts.
 ops: `new` | `blk <finish 0|1> <tx,tx,…|->` with tx = `sender:kind:payload` | `reset <k>` (the newest k blocks are removed)
-| `restart` | `ans` (epoch and the records held, sorted) -/
+| `restart` | `ans` (epoch and the records held, sorted) | `lot <digest>` (the next `blk` starts the flip lottery on a state whose
+ceremony candidates have this digest) | `cands` (digest of the candidates the node holds, M-CeremonyCandidates) -/
 namespace IdenaModel.Drv.C01H
 open IdenaModel.CeremonyEpoch IdenaModel.Drv
 
 structure St where
   n : Node
   keys : List (Nat × Nat)     -- every (sender, kind) seen in this case, for printing the extensional store
+  cn : IdenaModel.CeremonyCandidates.Node := IdenaModel.CeremonyCandidates.Node.init
+  cpast : List IdenaModel.CeremonyCandidates.Chain := []   -- the chains of the finished epochs (before their finishing block)
+  pendingLot : Option Nat := none
 
 def init : St := { n := Node.init, keys := [] }
+
+namespace Cand
+open IdenaModel.CeremonyCandidates in
+/-- blocks of the running epoch -/
+def curLen (c : IdenaModel.CeremonyCandidates.Chain) : Nat := c.before + (match c.lot with | some (_, a) => a + 1 | none => 0)
+
+def blk (st : St) (finish : Bool) : St :=
+  if finish then { st with cn := st.cn.step true .finish, cpast := st.cn.chain :: st.cpast, pendingLot := none }
+  else match st.pendingLot with
+    | some d => { st with cn := st.cn.step true (.lottery d), pendingLot := none }
+    | none => { st with cn := st.cn.step true .block }
+
+/-- a reset of k blocks; across a finishing block the reset handler first returns to the previous epoch's ceremony
+(`completeEpoch`, then the candidates of that epoch from its database while the state is in a ceremony period) -/
+def reset (st : St) (k : Nat) : St :=
+  if k ≤ curLen st.cn.chain then { st with cn := st.cn.step true (.reset k) }
+  else match st.cpast with
+    | [] => st
+    | c :: rest =>
+      let back : IdenaModel.CeremonyCandidates.Node :=
+        { chain := c, cands := IdenaModel.CeremonyCandidates.expected c, db := IdenaModel.CeremonyCandidates.expected c }
+      { st with cn := back.step true (.reset (k - curLen st.cn.chain - 1)), cpast := rest }
+end Cand
 
 /-- `node.StartWithHeight` as of the pinned source: the calls on the node's components in order.  The harness fixture
 `chainfx.Start` re-states the part before the network components (up to `ProvideApplyNewEpochFunc`).  Calls of the node's own
@@ -50,22 +78,27 @@ def step (st : St) (line : String) : St × String :=
     | none => (st, "bad-op")
     | some l =>
       let keys := l.foldl (fun ks t => insertKey ks (t.sender, t.kind)) st.keys
-      if f = "1" then ({ n := st.n.step true (.finish l), keys := keys }, "ok")
-      else if f = "0" then ({ n := st.n.step true (.add l), keys := keys }, "ok")
+      if f = "1" then (Cand.blk { st with n := st.n.step true (.finish l), keys := keys } true, "ok")
+      else if f = "0" then (Cand.blk { st with n := st.n.step true (.add l), keys := keys } false, "ok")
       else (st, "bad-op")
   | ["reset", k] =>
     match k.toNat? with
     | none => (st, "bad-op")
     | some k =>
       let c := st.n.chain
-      if k ≤ c.cur.length then ({ st with n := st.n.step true (.reset k) }, "ok")
+      if k ≤ c.cur.length then (Cand.reset { st with n := st.n.step true (.reset k) } k, "ok")
       else match c.past with
         | [] => (st, "bad-op")
         | (_, blocks) :: _ =>
           let j := k - c.cur.length - 1
           -- a reset over two finishing blocks is outside the model (and outside what a node keeps data for)
-          if j ≤ blocks.length then ({ st with n := st.n.step true (.resetAcross j) }, "ok") else (st, "unsupported")
-  | ["restart"] => ({ st with n := st.n.step true .restart }, "ok")
+          if j ≤ blocks.length then (Cand.reset { st with n := st.n.step true (.resetAcross j) } k, "ok") else (st, "unsupported")
+  | ["restart"] => ({ st with n := st.n.step true .restart, cn := st.cn.step true .restart }, "ok")
+  | ["lot", d] =>
+    match d.toNat? with
+    | some d => ({ st with pendingLot := some d }, "ok")
+    | none => (st, "bad-op")
+  | ["cands"] => (st, match st.cn.cands with | some d => toString d | none => "none")
   | ["ans"] => (st, showAns st)
   -- the node's start-up sequence as extracted from node/node.go; `chainfx.Start` (harness) re-states exactly this one
   | ["fact", "node-start-sequence", seq] =>
